@@ -680,6 +680,9 @@ func (e *Env) frameGoals(out *State) map[string]string {
 		if t == init || e.frameAllowAll[n] {
 			continue
 		}
+		if strings.HasPrefix(n, "V!") {
+			continue // ghost visited set of a map iteration
+		}
 		if strings.HasPrefix(n, "T!") {
 			// ghost trace channel: may only change if the contract declares it
 			ch := strings.SplitN(strings.TrimPrefix(n, "T!"), "!", 2)[0]
